@@ -214,6 +214,8 @@ fn error_kind(name: &str) -> io::ErrorKind {
         "TimedOut" => io::ErrorKind::TimedOut,
         "ConnectionAborted" => io::ErrorKind::ConnectionAborted,
         "PermissionDenied" => io::ErrorKind::PermissionDenied,
+        "UnexpectedEof" => io::ErrorKind::UnexpectedEof,
+        "InvalidData" => io::ErrorKind::InvalidData,
         _ => io::ErrorKind::Other,
     }
 }
